@@ -371,7 +371,7 @@ def run(ctx):
                        "dereference, overflow/pointer assert and panic in reachable /repo instances; each discharged by a template over typed HIR slots (lengths vs capacities, dataflow on `u`, "
                        "repr(transparent) of the cast target, who-may-call for the lifetime-unconstrained helper, arm coverage of the derived selector).")
     ctx.rule = "obligation = MIR event in a reachable /repo instance (per monomorphic instance); distinct by (function, construct)"
-    ctx.trusted = ["arbitrary 1.4.2: Unstructured::bytes(n) returns exactly n bytes or Err, peek_bytes does not consume, arbitrary_loop honours max, derive(Arbitrary) expansion",
+    ctx.trusted = ["arbitrary 1.4.2: Unstructured::bytes(n) returns exactly n bytes or Err, peek_bytes does not consume, arbitrary_loop honours max, choose_index(len) returns an index below len (Err for len == 0), derive(Arbitrary) expansion",
                    "heapless 0.7.17 / heapless-bytes 0.3.0 capacity checks", "serde_bytes 0.11.19 ByteArray layout (repr read from its ADT)"]
     for cfg, F in ctx.facts.items():
         roots = [r for r in F.mono["roots"] if "inst" in r and r["spec"].endswith("::arbitrary") and "impl arbitrary::Arbitrary<" in r["spec"]
